@@ -28,6 +28,17 @@ pub struct PmTreeProof {
     proof: pmtree::tree::MerkleProof<PoseidonHash>,
 }
 
+/// Verification hook: build a proof object from its parts (the only field is private), so that
+/// altered proofs can be handed to `PmTree::verify`.
+#[cfg(zerokit_verif)]
+impl PmTreeProof {
+    pub fn verif_from_parts(parts: Vec<(Fr, u8)>) -> Self {
+        PmTreeProof {
+            proof: pmtree::tree::MerkleProof(parts),
+        }
+    }
+}
+
 pub type FrOf<H> = <H as Hasher>::Fr;
 
 // The pmtree Hasher trait used by pmtree Merkle tree
